@@ -227,6 +227,7 @@ func (vc *VC) mergePreds(fr *Frame, b *ssa.BasicBlock, only map[*ssa.BasicBlock]
 		st.top = vc.define("top!m", top)
 	}
 	// phis
+	vc.curState = st
 	for _, ins := range b.Instrs {
 		phi, ok := ins.(*ssa.Phi)
 		if !ok {
@@ -357,6 +358,22 @@ func (vc *VC) iteVals(base string, conds []Term, vs []Val, typ types.Type) Val {
 			}
 		}
 		if !shape {
+			// mixed nil / object / interior pointers: fall back to references (interior pointers become
+			// snapshots, see refOf)
+			if vc.curState != nil {
+				errs := len(vc.errs)
+				var rs []Term
+				for _, v := range vs {
+					rs = append(rs, vc.refOf(v.P))
+				}
+				if len(vc.errs) == errs {
+					acc := rs[len(rs)-1]
+					for i := len(rs) - 2; i >= 0; i-- {
+						acc = tIte(conds[i], rs[i], acc)
+					}
+					return vc.ptrVal(vc.define(base, acc), typ)
+				}
+			}
 			vc.errorf("phi/merge of pointers to different kinds of places (%s)", base)
 			return vs[0]
 		}
@@ -416,6 +433,14 @@ func (vc *VC) addEdge(fr *Frame, from, to *ssa.BasicBlock, cond Term, st *State)
 
 func (vc *VC) runBlock(fr *Frame, b *ssa.BasicBlock) {
 	st := fr.entryOf[b]
+	prevNest := vc.loopNest
+	for _, li := range fr.loops {
+		if li.blocks[b] {
+			vc.loopNest++
+			break
+		}
+	}
+	defer func() { vc.loopNest = prevNest }()
 	// clear stale out-edges (dry runs)
 	for _, s := range b.Succs {
 		delete(fr.edges, [2]int{b.Index, s.Index})
@@ -498,6 +523,27 @@ func (vc *VC) enterLoop(fr *Frame, li *loopInfo) {
 		vc.errorf("%s: loop %d has no invariant (every loop of a function under contract needs one; use 'loop %d: invariant true' for none)", funcKey(fr.fn), li.ordinal, li.ordinal)
 		spec = &LoopSpec{}
 	}
+	// implicit invariant of "for i := range x" loops: the hidden index starts at -1 and only grows
+	for _, ins := range h.Instrs {
+		phi, ok := ins.(*ssa.Phi)
+		if !ok {
+			break
+		}
+		if phi.Comment == "rangeindex" {
+			dup := false
+			for _, c := range spec.Invariants {
+				if c.Label == "rangeindex" {
+					dup = true
+				}
+			}
+			if !dup {
+				spec = &LoopSpec{Invariants: append([]*Clause{{Label: "rangeindex", Src: "(implicit) range index >= -1", Implicit: phi}}, spec.Invariants...), Decreases: spec.Decreases}
+				if fr.contract != nil {
+					fr.contract.Loops[li.ordinal] = spec
+				}
+			}
+		}
+	}
 	// 1. invariant holds on entry (phis already bound to entry-edge values by mergePreds)
 	fr.entryOf[h] = est
 	for i, inv := range spec.Invariants {
@@ -541,7 +587,19 @@ func (vc *VC) enterLoop(fr *Frame, li *loopInfo) {
 					continue
 				}
 			}
-			hst.heap.known[k] = vc.declFresh(k+"!loop", vc.compSort[k])
+			nf := vc.declFresh(k+"!loop", vc.compSort[k])
+			if vc.frameOn && !vc.modWhole[k] && vc.compSort[k].K == SArray && (strings.HasPrefix(k, "A:") || strings.HasPrefix(k, "P:") || strings.HasPrefix(k, "M:")) {
+				// objects that existed at function entry and are not modifies targets are untouched by the loop
+				// (every write inside the loop is checked against this: frame.loopwrite)
+				pre := vc.heapGet(hst.heap, k)
+				conds := []Term{mk(fmt.Sprintf("(and (<= 0 |q!r|) (< |q!r| %s))", vc.topEntry.S), sortBool)}
+				for _, m := range vc.modRefs[k] {
+					conds = append(conds, tNot(tEq(mk("|q!r|", sortRef), m)))
+				}
+				q := fmt.Sprintf("(forall ((|q!r| Int)) (! (=> %s (= (select %s |q!r|) (select %s |q!r|))) :pattern ((select %s |q!r|))))", tAnd(conds...).S, nf.S, pre.S, nf.S)
+				vc.assume(hst, mk(q, sortBool))
+			}
+			hst.heap.known[k] = nf
 		}
 		if len(ks) > 0 {
 			nt := vc.declFresh("top", sortRef)
